@@ -1,65 +1,75 @@
 (* C34: stream handlers only take streams they are configured for. *)
 From Bifrost Require Import Lib.Base Lib.StrOps gen.Handlers Handlers.Model Handlers.Proofs.
 
+(* Each decision function takes the controller's WHOLE configuration record; the right-hand
+   sides name the only fields the decision may depend on (e.g. for the relay: the listen protocol
+   and source peer, never the target protocol / target peer it dials out with). *)
+
 (* echo: the configured protocol id (DefaultProtocolID when left empty) and, when configured, the local peer *)
 Theorem c34_echo : forall cfg_proto cfg_local s,
-  echo_offers cfg_proto cfg_local s = true <->
+  echo_offers (EchoCfg cfg_proto cfg_local) s = true <->
   s_proto s = echo_effective_proto cfg_proto /\ (cfg_local <> [] -> s_local s = cfg_local).
 Proof. exact echo_spec. Qed.
 Print Assumptions c34_echo.
 
-(* forwarding: protocol and local peer, each only where configured *)
-Theorem c34_forwarding : forall cfg_proto cfg_local s,
-  forwarding_offers cfg_proto cfg_local s = true <->
+(* forwarding: protocol and local peer, each only where configured; the dial target is irrelevant *)
+Theorem c34_forwarding : forall cfg_proto cfg_local target_multiaddr s,
+  forwarding_offers (FwdCfg cfg_proto cfg_local target_multiaddr) s = true <->
   (cfg_proto <> [] -> s_proto s = cfg_proto) /\ (cfg_local <> [] -> s_local s = cfg_local).
 Proof. exact forwarding_spec. Qed.
 Print Assumptions c34_forwarding.
 
-(* relay: protocol and source peer, unconditionally *)
-Theorem c34_relay : forall cfg_proto cfg_src s,
-  relay_offers cfg_proto cfg_src s = true <-> s_proto s = cfg_proto /\ s_local s = cfg_src.
+(* relay: the configured LISTEN protocol and source peer, unconditionally; whatever the target
+   peer and target protocol are *)
+Theorem c34_relay : forall cfg_proto cfg_src target_peer target_proto s,
+  relay_offers (RelayCfg cfg_proto cfg_src target_peer target_proto) s = true <->
+  s_proto s = cfg_proto /\ s_local s = cfg_src.
 Proof. exact relay_spec. Qed.
 Print Assumptions c34_relay.
 
 (* API accept: protocol, local peer where configured, remote peer among the configured ones *)
 Theorem c34_accept : forall cfg_proto cfg_local cfg_remotes s,
-  accept_offers cfg_proto cfg_local cfg_remotes s = true <->
+  accept_offers (AcceptCfg cfg_proto cfg_local cfg_remotes) s = true <->
   s_proto s = cfg_proto /\ (cfg_local <> [] -> s_local s = cfg_local) /\
   (cfg_remotes <> [] -> In (s_remote s) cfg_remotes).
 Proof. exact accept_spec. Qed.
 Print Assumptions c34_accept.
 
 (* RPC server: protocol among the configured ones, local peer (in its string form) among the served ones *)
-Theorem c34_srpc_server : forall cfg_protos cfg_peer_strs s local_str,
-  srpc_offers cfg_protos cfg_peer_strs s local_str = true <->
+Theorem c34_srpc_server : forall cfg_protos cfg_peer_strs disable_establish_link s local_str,
+  srpc_offers (SrpcCfg cfg_protos cfg_peer_strs disable_establish_link) s local_str = true <->
   In (s_proto s) cfg_protos /\ (cfg_peer_strs <> [] -> In local_str cfg_peer_strs).
 Proof. exact srpc_spec. Qed.
 Print Assumptions c34_srpc_server.
 
-(* pubsub: its protocol id only *)
-Theorem c34_pubsub : forall cfg_proto s, pubsub_offers cfg_proto s = true <-> s_proto s = cfg_proto.
+(* pubsub: its protocol id only (the controller's own peer id is not a stream filter) *)
+Theorem c34_pubsub : forall cfg_peer cfg_proto s,
+  pubsub_offers (PubsubCfg cfg_peer cfg_proto) s = true <-> s_proto s = cfg_proto.
 Proof. exact pubsub_spec. Qed.
 Print Assumptions c34_pubsub.
 
 (* solicitation: exactly the control protocol, or exactly prefix ++ hash (the handler gets that hash);
    everything else is declined; the slice after the prefix never panics *)
-Theorem c34_solicit : forall s,
-  (solicit_offers s = Ok SControl <-> s_proto s = solicit_control_protocol_id) /\
-  (forall h, solicit_offers s = Ok (SSolicited h) <-> s_proto s = solicit_stream_prefix_h ++ h) /\
-  (solicit_offers s = Ok SNone <->
+Theorem c34_solicit : forall c s,
+  (solicit_offers c s = Ok SControl <-> s_proto s = solicit_control_protocol_id) /\
+  (forall h, solicit_offers c s = Ok (SSolicited h) <-> s_proto s = solicit_stream_prefix_h ++ h) /\
+  (solicit_offers c s = Ok SNone <->
      s_proto s <> solicit_control_protocol_id /\ forall h, s_proto s <> solicit_stream_prefix_h ++ h).
 Proof. exact solicit_spec. Qed.
 Print Assumptions c34_solicit.
 
-Theorem c34_solicit_total : forall s, solicit_offers s <> Panic /\ forall k, solicit_offers s <> Err k.
+Theorem c34_solicit_total : forall c s, solicit_offers c s <> Panic /\ forall k, solicit_offers c s <> Err k.
 Proof. exact solicit_total. Qed.
 Print Assumptions c34_solicit_total.
 
-(* non-vacuity: a configured handler that accepts one stream and declines three near misses *)
+(* non-vacuity: a configured handler that accepts one stream and declines three near misses;
+   a relay whose target protocol differs from its listen protocol takes the listen protocol only *)
 Example c34_nonvacuous :
-  accept_offers [1] [2] [[3];[4]] (St [1] [2] [4]) = true /\
-  accept_offers [1] [2] [[3];[4]] (St [1] [2] [5]) = false /\
-  accept_offers [1] [2] [[3];[4]] (St [1] [9] [4]) = false /\
-  accept_offers [1] [2] [[3];[4]] (St [7] [2] [4]) = false /\
-  solicit_offers (St (solicit_stream_prefix_h ++ [97;98]) [] []) = Ok (SSolicited [97;98]).
+  accept_offers (AcceptCfg [1] [2] [[3];[4]]) (St [1] [2] [4]) = true /\
+  accept_offers (AcceptCfg [1] [2] [[3];[4]]) (St [1] [2] [5]) = false /\
+  accept_offers (AcceptCfg [1] [2] [[3];[4]]) (St [1] [9] [4]) = false /\
+  accept_offers (AcceptCfg [1] [2] [[3];[4]]) (St [7] [2] [4]) = false /\
+  relay_offers (RelayCfg [1] [2] [3] [9]) (St [1] [2] []) = true /\
+  relay_offers (RelayCfg [1] [2] [3] [9]) (St [9] [2] []) = false /\
+  solicit_offers (SolicitCfg 0) (St (solicit_stream_prefix_h ++ [97;98]) [] []) = Ok (SSolicited [97;98]).
 Proof. repeat split; reflexivity. Qed.
